@@ -153,6 +153,32 @@ def campaign(c):
                 table.setdefault(key, (gap, src.decode()))
             c.count('gap-statements', len(order)); c.traces_validated += 1
         c.case(('gap', i), dict(kind='gap-table', src=src.decode()[-300:]) if i % 6 == 0 else None)
+    # jump magnitudes swept: in each unit every value 0..N and a few hundred larger ones, each followed by one frame, in ONE program
+    # per unit - the distance between consecutive records is the frame's wire time plus exactly d units (a conversion that is
+    # inexact for a scattered class of values shows up here, not for round numbers)
+    for unit, mul in (('seconds', 10 ** 9), ('millis', 10 ** 6), ('micros', 10 ** 3), ('nanos', 1)):
+        r = c.rng.fork('sweep-' + unit)
+        N = 1200 if c.quick else 6000
+        ds = list(range(0, N)) + [r.below(10 ** 5 if unit == 'seconds' else 10 ** 7) for _ in range(200 if c.quick else 1500)]
+        B = (14 + 24) * 8
+        lines = ['import time;', 'import eth;']
+        want, t = [], 0
+        for d in ds:
+            lines.append('time::jump_%s(%d);' % (unit, d)); lines.append('eth::frame("|000000000001|", "|000000000002|");')
+            t += d * mul + B; want.append(t)
+        src = ('\n'.join(lines) + '\n').encode()
+        impl, model = progdiff.run_both(c, src)
+        progdiff.compare(c, src, impl, model, 'jump-sweep', project=lambda f: len(f).to_bytes(4, 'big'))
+        if impl['outcome'][0] == 'success':
+            T = times_of(c, impl['file'], dict(src=src.decode()[:2000]))
+            if T is not None and T != want:
+                k = [a != b for a, b in zip(T, want)].index(True) if len(T) == len(want) else -1
+                c.violation('time:jump-shift', 'time::jump_%s(%s) moved the clock by %s ns instead of %s' % (unit, ds[k] if k >= 0 else '?', (T[k] - (T[k - 1] if k else 0) - B) if k >= 0 else '?', ds[k] * mul if k >= 0 else '?'),
+                            dict(src='import time;\nimport eth;\neth::frame("|000000000001|", "|000000000002|");\ntime::jump_%s(%d);\neth::frame("|000000000001|", "|000000000002|");\n' % (unit, ds[max(k, 0)])))
+            c.count('jump-sweep-values', len(ds)); c.traces_validated += 1
+        else:
+            c.violation('time:jump-shift', 'jump sweep in %s failed: %s' % (unit, impl['outcome'][:3]), dict(src=src.decode()[:2000]))
+        c.case(('jump-sweep', unit), dict(kind='jump-sweep', unit=unit, values=len(ds)))
     # boundary: seconds field near the pcap limit, nsec crossing
     for v, unit in [(4294967295, 'seconds'), (999999999, 'nanos'), (1000000000, 'nanos'), (4294967295999, 'millis'), (1, 'nanos')]:
         src = ('import time;\nimport eth;\ntime::jump_%s(%d);\neth::frame("|000000000001|", "|000000000002|");\ntime::jump_nanos(999999999);\neth::frame("|000000000001|", "|000000000002|");\n' % (unit, v)).encode()
